@@ -75,11 +75,19 @@ def _build_vexec(race):
     return out
 
 
-def vexec(binary, args, timeout=3600, env=None):
+# the Go runtime's own verdicts on unsynchronised access, fatal for the process: evidence of a data race in the code under
+# test, not an infrastructure problem
+RUNTIME_RACE = ("fatal error: concurrent map", "WARNING: DATA RACE")
+
+
+def vexec(binary, args, timeout=3600, env=None, crash_is_race=False):
     e = dict(GOENV)
     if env:
         e.update(env)
     p = subprocess.run([binary] + [str(a) for a in args], capture_output=True, text=True, timeout=timeout, env=e)
+    if p.returncode != 0 and crash_is_race and any(x in (p.stderr or "") for x in RUNTIME_RACE):
+        i = min([p.stderr.find(x) for x in RUNTIME_RACE if x in p.stderr])
+        return {"_stderr": p.stderr[max(0, i - 200):i + 6000], "_crashed": True, "samples": []}
     if p.returncode != 0:
         raise Infra("vexec %s failed (%d): %s" % (args[0], p.returncode, (p.stderr or p.stdout)[-3000:]))
     lines = [x for x in p.stdout.strip().splitlines() if x.startswith("{")]
